@@ -55,7 +55,7 @@ def run_trans(case, owners, expect_reject=None, full_alphabet=True, extra_check=
     else:
         grouped = {}
         for m in res.mismatches:
-            if owned(m["origin"], owners):
+            if owned(m["origin"], owners) or m["origin"] == "nonfinite":
                 base = ":".join(m["origin"].split(":")[:2])
                 grouped.setdefault((base, m["cls"]), []).append(m)
             else:
